@@ -176,7 +176,7 @@ def enabled(w, ev):
     if ev[0] == "swap":
         return w.cur != ev[1]
     if ev[0] == "del_child":
-        return ev[1] in w.L
+        return True         # also when there is no local value (a no-op)
     return True
 
 
@@ -236,9 +236,10 @@ def step(ctx, w, ev, hist, check):
         except Exception as e:
             bad("del-raises", "deleting the local value raised %r" % (e,))
             return good
+        if a in w.L:
+            ctx.outcome("link-restored")
+            ctx.nontriv((w.kind, "del", a, repr(canon(w))))
         w.L.pop(a, None)
-        ctx.outcome("link-restored")
-        ctx.nontriv((w.kind, "del", a, repr(canon(w))))
     elif k == "set_parent":
         i, tgt, v = ev[1], ev[2], ev[3]
         old = w.P[i][tgt]
